@@ -198,6 +198,13 @@ def scalar_cases(tier):
             v = bytearray(lb)
             v[i] = (v[i] + delta) % 256
             canon.append(int.from_bytes(v, "little"))
+    # the comparison against L is a multi-limb borrow chain: perturb it at every bit
+    for k in range(256):
+        canon += [L + (1 << k), L - (1 << k), (1 << 252) + (1 << k), (1 << 253) - (1 << k), 1 << k, (1 << k) - 1, L - 1 - (1 << k), L + 1 + (1 << k)]
+    for k in range(0, 252, 4):
+        for j in (56, 112, 168, 224):
+            canon += [(1 << 252) + (1 << j) + (1 << k), L + (1 << j) - (1 << k)]
+    canon = sorted({v for v in canon if 0 <= v < (1 << 256)})
     for v in canon:
         b = v.to_bytes(32, "little")
         exp = ("T." + b.hex()) if v < L else "F"
